@@ -170,6 +170,8 @@ func (r *Rule) actions(isLink bool) string {
 			a = append(a, "setvar:"+quoteAct("tx."+sv.Key+"=-"+sv.Val))
 		case "!":
 			a = append(a, "setvar:"+quoteAct("!tx."+sv.Key))
+		case "flag":
+			a = append(a, "setvar:"+quoteAct("tx."+sv.Key))
 		}
 	}
 	for _, c := range r.Ctl {
